@@ -125,7 +125,7 @@ def ent_term(draw, ctx: Ctx, var: int, depth: int = 2):
 
 def int_term(draw, ctx: Ctx, var: int):
     e = ent_term(draw, ctx, var)
-    choices = ["a", "a", "a", "b", "b", "b", "val", "val", "d", "d", "twin"] + (["k", "k"] if ctx.cfg.use_k else [])
+    choices = ["a", "a", "a", "b", "b", "b", "val", "val", "d", "d", "twin", "pval"] + (["k", "k"] if ctx.cfg.use_k else [])
     if ctx.min_tags > 0:
         choices += ["tag", "pick"]
     c = draw(st.sampled_from(choices))
@@ -133,6 +133,8 @@ def int_term(draw, ctx: Ctx, var: int):
         return ["attr", e, c]
     if c == "val":
         return ["call", e, "val", []]
+    if c == "pval":
+        return ["pcall", "p_val", [e]]      # the result of a @predicate function as a value
     if c == "twin":
         return ["attr", ["call", e, "twin", []], "a"]      # the method constructs a @symbol instance
     if c == "d":
